@@ -16,8 +16,10 @@ THEOREM = ("Ufo2ft.C08.C08_pure / C08_history / C08_sorted_unique / sortOn_perm_
            "C08_vfinfo / infoInit_frame / infoInit_temp / infoInit_lib_agnostic / C08_history_vfinfo / infoInitAliased_touches / "
            "created_pinned / created_value / created_unset_clock / minIdx_spec / closest_spec / closest_lib_agnostic / "
            "created_calendar / created_unique / created_calendar_iff / created_holds / civil_correct / civil_roundtrip / "
-           "daysSince1970_inj / yoe_of / doe_decomp / yearSum / monthSum")
-PROOF_FILES = ["C08", "C08Env", "C08Calendar"]
+           "daysSince1970_inj / yoe_of / doe_decomp / yearSum / monthSum / C08_filter_history_free / C08_filter_heights / "
+           "setContext_forgets / session_opts / session_after_session / C08_filter_history_holds / cached_slip_violates / "
+           "cached_slip_heights / origin_heights_spec / isRoundOf_otRound / origin_ofInt_error / ctxMatrix_fixes_origin")
+PROOF_FILES = ["C08", "C08Env", "C08Calendar", "C08Filter"]
 N = {"quick": 40, "thorough": 500}
 RULE = ("(1) digests: random feature-rich fonts (2-4 scripts incl. RTL/Indic, kerning groups + glyph/class pairs incl. cross-script, "
         "mark/mkmk/ligature/cursive/caret anchors, composites with propagateAnchors, categories from lib/GDEF/none, languagesystems, "
@@ -54,11 +56,26 @@ RULE = ("(1) digests: random feature-rich fonts (2-4 scripts incl. RTL/Indic, ke
         "with or without an explicit fontinfo date, under TWO fake wall clocks (time.gmtime() patched), compared with the Lean model and "
         "with each other; `closest` = propagateAnchors._bounds + _component_closest_to_origin on the copied glyph set of such a composite "
         "built with defcon and with ufoLib2, compared with the closed-form exact corners and the model's argmin. "
-        "non-trivial = digests case with >= 2 scripts, kerning pairs and marks; emitter case whose two orders really differ.")
-ASSUMED = ["filter objects given through filters=[...] are treated as immutable option values by the model (`history` / `publicCompile` take "
-           "the options by value): that a filter instance carries nothing from one call (font) into the next is OBSERVED by the digest "
-           "histories with shared instances, not proved; inplace steps are left out of those cases until finding F2 (anchors moved by a "
-           "filter are read from the caller's source font, so inplace=True changes GPOS/GDEF) is listed",
+        "`origin` (own sub-stream, 4 x 25 / 24 x 25 items) = ONE TransformationsFilter instance (Origin 0-4, rarely no member; dyadic "
+        "ScaleX/ScaleY, offsets; Slant 0) run through __call__ or set_context on 1-4 fonts (ufoLib2 / defcon) whose capHeight / xHeight / "
+        "unitsPerEm differ (ints, halves, negative, 0, unset -> fallbacks; in half the items the first two fonts differ in ONE attribute), "
+        "against a new instance per font: get_origin_height(font, options.Origin) + context.matrix per call, and all five "
+        "get_origin_height(font, Origin(k)) of the shared instance, compared with each other and with the Lean session model. "
+        "non-trivial = digests case with >= 2 scripts, kerning pairs and marks; emitter case whose two orders really differ; origin item "
+        "whose fonts lead to different heights / matrices.")
+ASSUMED = ["filter objects given through filters=[...] are treated as immutable option values by the model of the whole compile (`history` / "
+           "`publicCompile` take the options by value). For TransformationsFilter that is now backed by a model of the instance "
+           "(Model/C08Filter.lean: options + self.context; set_context replaces the context from (options, current font) and reads nothing "
+           "of the old one) and the theorem C08_filter_history_free, tied to the code by the `origin` stream; for the OTHER filter classes "
+           "(decompose / flatten / sortContours / decomposeTransformed / propagateAnchors objects) and for everything of a "
+           "TransformationsFilter beyond origin height + matrix (context.modified, the include predicate, Slant != 0) it stays OBSERVED by "
+           "the digest histories with shared instances, not proved; inplace steps are left out of those cases until finding F2 (anchors "
+           "moved by a filter are read from the caller's source font, so inplace=True changes GPOS/GDEF) is listed",
+           "capHeightFallback / xHeightFallback: `upm * 0.7` is modelled as the exact rational 7 upm / 10 (and upm * 0.5 as upm / 2, which IS "
+           "exact in doubles). The double 0.7 is slightly below 7/10, so when 7 upm / 10 is a half-integer (integer upm = 5 mod 10, e.g. "
+           "upm 45: code 31, exact 32; 73 of the 500 such upm below 5000) the code may round down where the model rounds up: the "
+           "generator does not produce those unitsPerEm; for all other integer upm < 5000 the two agree (checked exhaustively outside the proof). "
+           "Slant = 0 in the modelled matrix (skew goes through math.tan)",
            "datetime.fromtimestamp(e, utc).strftime is the proleptic Gregorian calendar (an external library: modelled as civil-from-days "
            "arithmetic, which is PROVED equal to the year-by-year / month-by-month count for every e >= 0 - created_calendar, created_unique in "
            "Props/C08Calendar.lean; that datetime itself agrees is observed per case through `denotes`); int() of the environment text is an "
@@ -454,6 +471,36 @@ def gen(rng, n, mode):
     f2 = adversarial or _finding_listed(F2_SHAPE)
     for i in range(n):
         yield _gen_digest_case(rng, i, thorough, f2)
+    # filter-object sessions (op "origin"): drawn from a sub-stream seeded AFTER everything else, so the streams above are what
+    # they were before this stream existed
+    r2 = random.Random(rng.randrange(2 ** 32))
+    for _ in range(4 if not thorough else 24):
+        yield {"kind": "emit", "items": [_gen_origin(r2, adversarial) for _ in range(25)]}
+
+
+def _gen_origin(rng, adversarial=False):
+    """ONE TransformationsFilter instance and 2-3 fonts (rarely 1 or 4) with different capHeight / xHeight / unitsPerEm, any of them
+    unset.  Scales are dyadic percentages and heights integers or halves, so the doubles are exact.  unitsPerEm is never = 5 (mod
+    10) while capHeight is unset: there 0.7 * upm is a half-integer in exact arithmetic and just below it as a double (ASSUMED)."""
+    heights = [None, None, 700, 600, 701, 700.5, 1400, 1, 0, -100, -101, 499.5, 500, 520]
+    def font():
+        upm = rng.choice([None, None, 1000, 1000, 2048, 1024, 250, 16, 1, 999, 2001, 3, 4096])
+        return {"upm": upm, "cap": rng.choice(heights), "xh": rng.choice(heights)}
+    k = rng.choice([2, 2, 3, 3, 3, 1, 4])
+    fonts = [font() for _ in range(k)]
+    if rng.random() < 0.5 and k > 1:
+        # same values except for ONE attribute: the smallest difference a carried-over height could hide behind
+        fonts[1] = dict(fonts[0])
+        a = rng.choice(["upm", "cap", "xh"])
+        fonts[1][a] = rng.choice([v for v in ([None, 1000, 2048, 250, 16] if a == "upm" else heights) if v != fonts[0][a]])
+    r = rng.random()
+    origin = rng.choice([0, 1, 2, 3]) if r < 0.8 else 4 if r < 0.92 else rng.choice([5, -1, 7, 100])
+    sc = [50, 25, 200, 150, 75, 125]
+    r = rng.random()
+    sx, sy = (100, 100) if r < 0.15 else (rng.choice(sc), 100) if r < 0.25 else (rng.choice(sc), rng.choice(sc))
+    dx, dy = (0, 0) if rng.random() < 0.6 else (rng.choice([0, 10, -30, 2.5]), rng.choice([0, 20, -7, 0.5]))
+    return {"op": "origin", "seed": rng.randrange(10 ** 9), "origin": origin, "sx": sx, "sy": sy, "dx": dx, "dy": dy, "fonts": fonts,
+            "lib": rng.choice(["ufoLib2", "defcon"]), "via": rng.choice(["call", "call", "set_context"])}
 
 
 # ------------------------------------------------------------------------------------------------ running the real code
@@ -828,7 +875,43 @@ def _run_closest(it, rng):
             "nontrivial": len(it["exact"]) > 1}
 
 
-RUNNERS = {"created": _run_created, "closest": _run_closest, "vfinfo": _run_vfinfo, "copyglyph": _run_copyglyph, "kernwrite": _run_kernwrite, "register": _run_register, "split": _run_split, "color": _run_color, "sortnames": _run_sortnames,
+def _run_origin(it, rng):
+    """ONE TransformationsFilter instance run on every font of the item (through __call__, or set_context directly) against a new
+    instance per font: get_origin_height(font, options.Origin) and context.matrix after each call; and get_origin_height(font,
+    Origin(k)), k = 0..4, asked of the shared instance afterwards"""
+    from ufo2ft.filters.transformations import TransformationsFilter as T
+    from ufo2ft.util import _GlyphSet
+    kw = dict(Origin=it["origin"], ScaleX=it["sx"], ScaleY=it["sy"], OffsetX=it["dx"], OffsetY=it["dy"])
+    fonts = [build({"glyphs": [], "info": {"unitsPerEm": f["upm"], "capHeight": f["cap"], "xHeight": f["xh"]}}, it["lib"]) for f in it["fonts"]]
+
+    def row(inst, font):
+        if it["via"] == "call":
+            inst(font)
+        else:
+            inst.set_context(font, _GlyphSet.from_layer(font))
+        return [rat(inst.get_origin_height(font, inst.options.Origin))] + [rat(v) for v in inst.context.matrix]
+    try:
+        shared = T(**kw)
+    except Exception as e:
+        obs = {"err": type(e).__name__}
+    else:
+        try:
+            obs = {"shared": [row(shared, f) for f in fonts], "fresh": [row(T(**kw), f) for f in fonts],
+                   "heights": [[rat(shared.get_origin_height(f, T.Origin(k))) for k in range(5)] for f in fonts]}
+        except Exception as e:    # pragma: no cover
+            obs = {"err": type(e).__name__}
+    differ = "shared" in obs and len({json.dumps(r) for r in obs["fresh"]}) > 1
+    unset = sorted({a for f in it["fonts"] for a in ("upm", "cap", "xh") if f[a] is None})
+    q = lambda v: None if v is None else rat(v)
+    return {"op": "origin", "in": {"origin": it["origin"], "sx": rat(it["sx"]), "sy": rat(it["sy"]), "dx": rat(it["dx"]), "dy": rat(it["dy"]),
+                                   "fonts": [{a: q(f[a]) for a in ("upm", "cap", "xh")} for f in it["fonts"]]},
+            "obs": obs, "tags": ["emit:origin", "emit:origin:origin=%s" % (it["origin"] if 0 <= it["origin"] <= 4 else "invalid"),
+                                 "emit:origin:fonts=%d" % len(fonts), "emit:origin:unset=%s" % ("+".join(unset) or "none"),
+                                 "emit:origin:via=" + it["via"], "emit:origin:fonts-differ=%s" % differ],
+            "nontrivial": differ}
+
+
+RUNNERS = {"origin": _run_origin, "created": _run_created, "closest": _run_closest, "vfinfo": _run_vfinfo, "copyglyph": _run_copyglyph, "kernwrite": _run_kernwrite, "register": _run_register, "split": _run_split, "color": _run_color, "sortnames": _run_sortnames,
            "curs": _run_curs, "carets": _run_carets, "glyphclass": _run_glyphclass, "toadd": _run_toadd}
 
 
@@ -899,6 +982,10 @@ def agree(req, rep):
         return m["ufoLib2"] == o["ufoLib2"] and m["defcon"] == o["defcon"]
     if req["op"] == "closest":
         return m == o
+    if req["op"] == "origin":
+        if "err" in o or "err" in m:
+            return m == o
+        return m["rows"] == o["shared"] and m["rows"] == o["fresh"] and m["heights"] == o["heights"]
     if req["op"] == "vfinfo":
         return all(m[l]["after"] == o[l]["after"] and m[l]["temp"] == o[l]["temp"] for l in ("ufoLib2", "defcon"))
     return m["a"] == o["a"] and m["b"] == o["b"]
@@ -909,6 +996,10 @@ def shrink(case):
         if len(case["items"]) > 1:
             for it in case["items"]:
                 yield {"kind": "emit", "items": [it]}
+        elif case["items"] and case["items"][0]["op"] == "origin" and len(case["items"][0]["fonts"]) > 1:
+            it = case["items"][0]
+            for k in range(len(it["fonts"])):
+                yield {"kind": "emit", "items": [dict(it, fonts=it["fonts"][:k] + it["fonts"][k + 1:])]}
         return
     # fewer interpreters, then fewer steps, then fewer glyphs / pairs
     if len(case["procs"]) > 1:
@@ -989,13 +1080,26 @@ LEVEL_TEXT = ("Proved for all inputs (Lean): every modelled place where the kern
               "libraries (override where given, master's value elsewhere), so a history containing such variable builds returns first-call "
               "results (C08_history_vfinfo). Environment: with SOURCE_DATE_EPOCH set to ANY value (0 included) or an explicit "
               "openTypeHeadCreated, the modelled head.created is the same for every wall clock (created_pinned), and without it it is not "
-              "(created_unset_clock). UFO library: the component promoted to base in a mark-only composite is the first one nearest to the "
+              "(created_unset_clock). Filter objects: a shared TransformationsFilter instance computes origin height and matrix of every call from "
+              "its options and the CURRENT font only, whatever it was used on before (C08_filter_history_free; the caching slip is refuted by "
+              "cached_slip_violates). UFO library: the component promoted to base in a mark-only composite is the first one nearest to the "
               "origin for every list of bounds (closest_spec), so the two library branches of _bounds choose alike whenever they report the "
               "same corners (closest_lib_agnostic) - that they do is observed, on curves without on-curve extrema. Decisive runtime part: sha256 of "
               "fonts from fresh interpreters over hash seeds x histories x UFO library x memory/disk x inplace x container order.")
-LEVEL_NOTE = ("Filter objects in filters=[...] (option objects with a call history of their own, e.g. TransformationsFilter's "
-              "font-dependent origin height): observation only - sha256 of fonts compiled with instances already used on another font vs. with "
-              "new instances; no Lean model of filter-instance state. Trusted: Lean kernel + standard axioms; the correspondence harness; determinism of fontTools & co. is measured, not modelled; hash seeds "
+LEVEL_NOTE = ("Filter objects in filters=[...] (option objects with a call history of their own): TransformationsFilter's font-dependent "
+              "state IS modelled (Model/C08Filter.lean: Origin enum incl. the ValueError of start(), get_origin_height with the capHeight / "
+              "xHeight / unitsPerEm fallbacks of fontInfoData as a function of (options, fontinfo) only, set_context's matrix for Slant = 0, an "
+              "instance = options + self.context, a session = one instance called on a list of fonts). Proved (Props/C08Filter.lean): "
+              "C08_filter_history_free - for every options, EVERY earlier context and every list of fonts, the context (height + matrix) of "
+              "call k is the one a fresh instance computes for font k; session_opts / session_after_session - a session leaves the options "
+              "alone, so a later session is that of a fresh instance; origin_heights_spec - the five heights satisfy the declarative "
+              "description (value or nearest-integer-half-up of 0.7 / 0.5 upm; halves thereof; baseline 0); cached_slip_violates / "
+              "cached_slip_heights - kernel-checked witness that an instance which keeps the first font's height (capHeight 700 then 600 "
+              "-> 700, 700) is NOT history-free, and holdsOriginHistory rejects its observation. Tie: the `origin` emitter stream (shared vs "
+              "new instances on 1-4 fonts, through __call__ / set_context, both UFO libraries). NOT modelled: the other filter classes' "
+              "instances, context.modified / glyph inclusion of a TransformationsFilter, Slant != 0, the double rounding of 0.7 * upm at "
+              "half-integers (ASSUMED) - for those the evidence remains the sha256 of fonts compiled with instances already used on another "
+              "font vs. with new instances. Trusted: Lean kernel + standard axioms; the correspondence harness; determinism of fontTools & co. is measured, not modelled; hash seeds "
               "are sampled. The Lean models cover the emitters listed in Model/C08.lean, not whole writers (those are C05/C06/C18's models). "
               "MATH / colour layers excluded here (C07 findings). The InfoCompiler model covers the constructor's Info handling only; that the "
               "name/OS2/hhea/head/post values of the variable font are a function of that temporary Info, and that nothing ELSE in a variable "
